@@ -26,7 +26,7 @@ Definition msg_set_seen (m : msg) : msg :=
 Definition msg_eqb (a b : msg) : bool :=
   (m_date a =? m_date b)%Z && (m_tag a =? m_tag b) && (m_size a =? m_size b) && Bool.eqb (m_seen a) (m_seen b).
 
-Inductive handle := Kth (k : N) | Latest | Bogus.
+Inductive handle := Kth (k : nat) | Latest | Bogus.
 
 Inductive op :=
 | Add (mb : str) (date : Z) (tag size : N)   (* AddMessage; the message is unseen *)
@@ -40,27 +40,28 @@ Inductive op :=
 Inductive res (A : Type) := Ok (a : A) | NotExist | Err.
 Arguments Ok {A} a. Arguments NotExist {A}. Arguments Err {A}.
 
-(** Limits: [c_cap] = per-mailbox message cap, [c_max] = store-wide byte limit (memory
+(** Handle numbers, the cap and mailbox lengths are [nat] (small, structural); byte counts
+    are [N]. Limits: [c_cap] = per-mailbox message cap, [c_max] = store-wide byte limit (memory
     store only); 0 disables either. *)
-Record scfg := { c_cap : N; c_max : N }.
+Record scfg := { c_cap : nat; c_max : N }.
 
-Record entry := { e_mb : str; e_k : N; e_msg : msg }.
+Record entry := { e_mb : str; e_k : nat; e_msg : msg }.
 
 (** [live]: live messages, global arrival order. [counts]: number of adds so far per mailbox,
     in order of first delivery (the next handle of a mailbox; never decreases, so handles and
     therefore ids are never reused). *)
-Record spec_store := { live : list entry; counts : list (str * N) }.
+Record spec_store := { live : list entry; counts : list (str * nat) }.
 Definition spec_init : spec_store := {| live := []; counts := [] |}.
 
 Inductive evkind := EStored | EDeleted.
 (** An event names a message by mailbox and handle number. *)
-Definition event := (evkind * str * N)%type.
+Definition event := (evkind * str * nat)%type.
 
 (** A message as seen through a listing: its handle number and what reads back. *)
-Definition view := (N * msg)%type.
+Definition view := (nat * msg)%type.
 
 Inductive obs :=
-| OAdd (k : N) (back : res view)       (* handle issued; GetMessage of the id just returned *)
+| OAdd (k : nat) (back : res view)       (* handle issued; GetMessage of the id just returned *)
 | OGet (r : res view)
 | OList (l : list view)
 | OUnit (r : res unit)                 (* MarkSeen / RemoveMessage / PurgeMessages *)
@@ -72,23 +73,23 @@ Inductive obs :=
 (* ------------------------------------------------------------------ helpers *)
 
 Definition ent_in (mb : str) (e : entry) : bool := str_eqb mb (e_mb e).
-Definition is_ent (mb : str) (k : N) (e : entry) : bool := ent_in mb e && (e_k e =? k).
+Definition is_ent (mb : str) (k : nat) (e : entry) : bool := ent_in mb e && Nat.eqb (e_k e) k.
 
 (** The mailbox [mb]: its live entries, oldest first. *)
 Definition box (mb : str) (l : list entry) : list entry := filter (ent_in mb) l.
 
 Definition view_of (e : entry) : view := (e_k e, e_msg e).
 
-Fixpoint count_of (mb : str) (c : list (str * N)) : N :=
+Fixpoint count_of (mb : str) (c : list (str * nat)) : nat :=
   match c with
-  | [] => 0
+  | [] => O
   | (n, k) :: c' => if str_eqb mb n then k else count_of mb c'
   end.
 
-Fixpoint bump (mb : str) (c : list (str * N)) : list (str * N) :=
+Fixpoint bump (mb : str) (c : list (str * nat)) : list (str * nat) :=
   match c with
-  | [] => [(mb, 1)]
-  | (n, k) :: c' => if str_eqb mb n then (n, k + 1) :: c' else (n, k) :: bump mb c'
+  | [] => [(mb, 1%nat)]
+  | (n, k) :: c' => if str_eqb mb n then (n, S k) :: c' else (n, k) :: bump mb c'
   end.
 
 Fixpoint total (l : list entry) : N :=
@@ -130,12 +131,12 @@ Definition find_h (mb : str) (h : handle) (l : list entry) : option entry :=
 Definition res_of_find (o : option entry) : res view :=
   match o with Some e => Ok (view_of e) | None => NotExist end.
 
-Definition set_seen (mb : str) (k : N) (l : list entry) : list entry :=
+Definition set_seen (mb : str) (k : nat) (l : list entry) : list entry :=
   map (fun e => if is_ent mb k e
                 then {| e_mb := e_mb e; e_k := e_k e; e_msg := msg_set_seen (e_msg e) |}
                 else e) l.
 
-Definition remove_ent (mb : str) (k : N) (l : list entry) : list entry :=
+Definition remove_ent (mb : str) (k : nat) (l : list entry) : list entry :=
   filter (fun e => negb (is_ent mb k e)) l.
 
 Definition spec_visit (st : spec_store) : list (str * list view) :=
@@ -149,12 +150,12 @@ Definition spec_visit (st : spec_store) : list (str * list view) :=
     that order followed by the stored event (what [StoreManager.Deliver] emits once
     [AddMessage] has returned). *)
 Definition spec_add (cfg : scfg) (st : spec_store) (mb : str) (m : msg)
-  : spec_store * N * list event :=
+  : spec_store * nat * list event :=
   let k := count_of mb (counts st) in
   let l1 := live st ++ [{| e_mb := mb; e_k := k; e_msg := m |}] in
   let '(d1, l2) :=
-    if c_cap cfg =? 0 then ([], l1)
-    else drop_oldest mb (N.to_nat (N.of_nat (length (box mb l1)) - c_cap cfg)) l1 in
+    if Nat.eqb (c_cap cfg) 0 then ([], l1)
+    else drop_oldest mb (length (box mb l1) - c_cap cfg)%nat l1 in
   let '(d2, l3) := if c_max cfg =? 0 then ([], l2) else evict_fit (c_max cfg) l2 in
   ({| live := l3; counts := bump mb (counts st) |}, k,
    map ev_deleted d1 ++ map ev_deleted d2 ++ [(EStored, mb, k)]).
